@@ -225,3 +225,12 @@ def r5(ctx: Ctx) -> None:
     if not ok:
         ctx.report(f.where, "argmin-update", "the best spring constant is not tracked by 'if cost < best_cost' with cost = total overlap + wire_length / 2 "
                    "starting from +infinity", lineno=f.node.lineno)
+
+
+@rule("C13", "R6.vector-arithmetic", "LAW",
+      "the displacement arithmetic is exact vector arithmetic: Point +, -, unary -, * and / are component-wise without "
+      "rounding and the norm is sqrt(x^2 + y^2) for every vector (the force directions and the displacement cap divide "
+      "by it)", floor=6)
+def r6(ctx: Ctx) -> None:
+    from .points import point_arithmetic
+    point_arithmetic(ctx, ops={"__neg__", "__add__", "__sub__", "__mul__", "__truediv__", "norm"})
